@@ -24,6 +24,7 @@ import (
 var (
 	flagCase     = flag.String("case", "", "replay the saved case in this file instead of generating")
 	flagShard    = flag.Int("shard", 0, "shard number of this process")
+	flagNShards  = flag.Int("nshards", 1, "number of shard processes of this run")
 	flagTier     = flag.String("tier", "quick", "quick or thorough")
 	flagShardOut = flag.String("shardout", "", "file to which this process writes its counters")
 	flagRoot     = flag.String("verifroot", "/verif", "verification root directory")
@@ -585,3 +586,27 @@ func Enumerate[C any](t *testing.T, p Prop[C], next func() (C, bool)) int {
 
 // ReplayRaw executes a property on a JSON-encoded case (used by native fuzz targets).
 func ReplayRaw(p AnyProp, raw []byte) Outcome { return p.replay(raw) }
+
+var (
+	onceMu   sync.Mutex
+	onceSeen = map[string]bool{}
+)
+
+// OncePerRun reports true exactly once per run for the given key, and only in the one shard the
+// key is assigned to (a hash of the key modulo the number of shards): for the single expensive case a subject gets per run (a very long input, say).
+func OncePerRun(key string) bool {
+	h := 0
+	for _, c := range key {
+		h = (h*31 + int(c)) & 0xffff
+	}
+	if n := *flagNShards; n > 1 && h%n != *flagShard {
+		return false
+	}
+	onceMu.Lock()
+	defer onceMu.Unlock()
+	if onceSeen[key] {
+		return false
+	}
+	onceSeen[key] = true
+	return true
+}
